@@ -149,6 +149,11 @@ class Executor:
                 return hook(self, v, st)   # st: the state the object is looked at in (None where the caller has none)
             return v.v != 0
         if k == "tuple":
+            hook = self.w.call_hooks.get(("truth", "tuple"))      # a sidecar may encode a union (str | bool) as a pair: its truth is the union member's
+            if hook is not None:
+                got = hook(self, v, st)
+                if got is not None:
+                    return got
             return z3.BoolVal(len(v.v) > 0)
         if k == "any":
             return truthy_any(v.v)
@@ -308,8 +313,28 @@ class Executor:
         yield st, v
 
     def ev_JoinedStr(self, node, st, sink):
-        # f-string: content opaque (a fresh str); sub-expressions are not evaluated (repr/str of objects)
-        yield st, fresh(STR, "fstr")
+        # f-string: literal pieces and plain `{expr}` holes whose value is a str are concatenated exactly; any other hole (conversion, format spec, a value that is not a
+        # str, an expression outside the subset) contributes an opaque piece (repr/str/format of objects is not modelled)
+        def go(i, st1, acc):
+            if i == len(node.values):
+                yield st1, SV(STR, acc[0] if len(acc) == 1 else z3.Concat(*acc) if acc else z3.StringVal(""))
+                return
+            part = node.values[i]
+            if isinstance(part, ast.Constant) and isinstance(part.value, str):
+                yield from go(i + 1, st1, acc + [zstr(part.value)])
+                return
+            plain = isinstance(part, ast.FormattedValue) and part.conversion == -1 and part.format_spec is None
+            if plain:
+                try:
+                    outcomes = list(self.ev(part.value, st1.fork(), []))     # side-effect free probe; exceptions of hole expressions are not modelled
+                except Unsupported:
+                    outcomes = None
+                if outcomes is not None and len(outcomes) == 1 and outcomes[0][1].ty.kind == "str":
+                    yield from go(i + 1, st1, acc + [outcomes[0][1].v])
+                    return
+            yield from go(i + 1, st1, acc + [fresh(STR, "fstr").v])
+
+        yield from go(0, st, [])
 
     def ev_Tuple(self, node, st, sink):
         if any(isinstance(e, ast.Starred) for e in node.elts):
@@ -459,6 +484,34 @@ class Executor:
         if isinstance(op, ast.Mod) and ka == "str":
             r = fresh(STR, "fmt")
             lit = z3.simplify(a.v)
+            # `fmt % x`: a tuple x is the argument LIST.  With n directives: a tuple of another length raises TypeError, and so may a value that can turn out to be
+            # a tuple (an opaque object, an exception's args); a value that cannot be a tuple is one argument
+            if z3.is_string_value(lit):
+                import re as _re
+
+                ndir = len(_re.findall(r"%[-#0 +]*(?:\d+|\*)?(?:\.(?:\d+|\*))?[a-zA-Z]", lit.as_string().replace("%%", "")))
+                where = f"'%' formatting line {getattr(node, 'lineno', '?')}"
+                if kb == "tuple" and not isinstance(b.ty, CPX):
+                    if len(b.v) != ndir:
+                        self.raise_(st, sink, "TypeError", origin=where + ": the tuple has not one value per directive")
+                        return
+                elif kb in ("any", "dt", "seq"):
+                    # a value that may turn out to be a tuple: the sidecar world says when (hook ("fmt", kind) -> z3 condition for "is a tuple without one value per
+                    # directive", or None for "never a tuple"); a SEQ stands for a tuple here only where the engine itself made it one (exception args)
+                    hook = self.w.call_hooks.get(("fmt", kb))
+                    cond = hook(self, b, ndir, st) if hook else (z3.Length(b.v) != ndir if kb == "seq" and getattr(b, "is_tuple", False) else None)
+                    if cond is not None:
+                        for s2, bad in self.fork(st, cond):
+                            if bad:
+                                self.raise_(s2, sink, "TypeError", origin=where + ": the value may be a tuple")
+                            else:
+                                st = s2
+                    if cond is None and ndir != 1:
+                        self.raise_(st, sink, "TypeError", origin=where + ": one value for %d directives" % ndir)
+                        return
+                elif ndir != 1:
+                    self.raise_(st, sink, "TypeError", origin=where + ": one value for %d directives" % ndir)
+                    return
             if z3.is_string_value(lit):
                 # the literal characters of the format survive formatting: the result is at least that long (so `assert "text %s" % x` never fires)
                 import re as _re
@@ -726,7 +779,12 @@ class Executor:
                 raise Unsupported(f"class attribute {d.name}.{attr}")
             if isinstance(d, ExcV):
                 if attr == "args":
-                    yield st, mk_tuple(d.args)
+                    if not getattr(d, "exact", True):
+                        v_ = fresh(SEQ(ANY), "exc_args")     # an exception raised by opaque code: a tuple of any length
+                        v_.is_tuple = True
+                        yield st, v_
+                    else:
+                        yield st, mk_tuple(d.args)
                     return
                 if d.ref is not None:
                     yield from self.getattr(d.ref, attr, st, sink, node)
@@ -944,15 +1002,33 @@ class Executor:
         raise Unsupported(f"subscript of {base.ty!r} line {getattr(node, 'lineno', '?')}")
 
     # -- calls ----------------------------------------------------------
+    def trace_call(self, node, st, sink):
+        """A call of the tracing helpers: the call itself is dropped (it writes a debug line or nothing), but its ARGUMENTS are evaluated first, as Python does -
+        an argument expression that raises (`"%s" % exc.args`) raises here.  An argument outside the engine's subset is skipped (then only its exceptions are missed)."""
+        states = [st]
+        for arg in list(node.args) + [kw.value for kw in node.keywords]:
+            nxt = []
+            for s1 in states:
+                try:
+                    outcomes = list(self.ev(arg, s1.fork(), sink_probe := []))
+                except Unsupported:
+                    nxt.append(s1)
+                    continue
+                sink.extend(sink_probe)
+                nxt.extend(s2 for s2, _ in outcomes)
+            states = nxt
+        for s1 in states:
+            yield s1, NONEV
+
     def ev_Call(self, node, st, sink):
         f = node.func
         if isinstance(f, ast.Name) and f.id in TRACE_NAMES and f.id not in st.locals or (
             isinstance(f, ast.Name) and f.id in TRACE_NAMES and st.locals[f.id].ty.kind == "func" and isinstance(st.locals[f.id].v, FuncD) and st.locals[f.id].v.qualname.endswith((".log", ".trace"))
         ):
-            yield st, NONEV
+            yield from self.trace_call(node, st, sink)
             return
         if isinstance(f, ast.Attribute) and f.attr in TRACE_ATTRS:
-            yield st, NONEV
+            yield from self.trace_call(node, st, sink)
             return
         if isinstance(f, ast.Name) and f.id == "cast" and len(node.args) == 2:
             tname = node.args[0].id if isinstance(node.args[0], ast.Name) else (node.args[0].value if isinstance(node.args[0], ast.Constant) else None)
@@ -1309,6 +1385,11 @@ class Executor:
             hook = self.w.call_hooks.get((k, d.name))
             if hook:
                 yield from hook(self, d, args, kwargs, st, sink, node)
+                return
+            pytype = {"bool": bool, "int": int, "none": type(None), "float": float, "str": str, "bytes": bytes}.get(k)
+            if pytype is not None and not hasattr(pytype, d.name):
+                # the value's Python type has no such attribute at all (e.g. `.split()` on True): AttributeError, as in Python
+                self.raise_(st, sink, "AttributeError", origin=f"{pytype.__name__} has no attribute {d.name!r} (line {getattr(node, 'lineno', '?')})")
                 return
             raise Unsupported(f"method {d.name} on {d.recv.ty!r} line {getattr(node, 'lineno', '?')}")
         self.used_trusted.add(f"{k}.{d.name}")
